@@ -33,6 +33,7 @@ def run(ctx, rep):
     else:
         rep.fn(cac)
         check_collision_guard(fx, cac, rep)
+    check_state_answers_from_cache(fx, rep)
 
     n_sites = 0
     for nq in ('revm::context::evm_context::EvmContext::make_create_frame',
@@ -114,6 +115,60 @@ def run(ctx, rep):
     ng = c20.check_cleared_guard(fx, rep, rule='R4-cachedb-has-storage-guard', only=('has_storage_ref', 'has_storage'))
     rep.floor('cachedb-has-storage-guards', ng, 1)
     rep.assume('leaf databases may answer has_storage with the default; an implementor\'s own answer is trusted')
+
+
+def check_state_answers_from_cache(fx, rep):
+    """R5: the block-state database holds the slots written earlier in its own cache.  State::
+    has_storage must look at them before any other answer: with a cached account present, `false`
+    (or the question to the wrapped database) is only reached after the scan of the cached slots
+    found no non-zero value, and a hit answers `true`."""
+    from symx import Symx, Budget, render
+    g = None
+    for x in fx.fns_all:
+        if x.name == 'has_storage' and (x.impl_self or '').startswith('revm::db::states::state::State') and (x.impl_trait or '').endswith('::Database'):
+            g = x
+    if g is None:
+        rep.undecided('R5-state-has-storage', 'State::has_storage', 'impl not found')
+        return
+    rep.fn(g)
+    try:
+        rs = Symx(fx, max_paths=2000, snapshot_refs=True).run(g)
+    except Budget:
+        rep.undecided('R5-state-has-storage', 'State::has_storage', 'path budget', g.where())
+        return
+    problems = []
+    seen_true = False
+    for r in rs:
+        ret = render(r.ret)
+        if ret.startswith('Result::Err'):
+            continue
+        cached = None
+        scan = None
+        for (sv, lit, _f, _b) in r.lits:
+            txt = render(sv)
+            if txt.startswith('discr(') and '.account' in c15_deep(sv) and 'load_cache_account' in c15_deep(sv):
+                cached = (lit == ('eq', 1))
+            if txt.startswith('any('):
+                scan = (lit != ('eq', 0))
+        if ret == 'Result::Ok{0: 1}':
+            if scan is True:
+                seen_true = True
+            else:
+                problems.append('`true` is answered without a non-zero cached slot')
+            continue
+        if cached is not False and scan is not False:
+            problems.append('with a cached account present, %s is reached without scanning the cached slots first (a storage-known account with non-zero slots would be reported empty)' % ('`false`' if ret == 'Result::Ok{0: 0}' else 'the wrapped database'))
+    if not seen_true:
+        problems.append('no path answers `true` from the cached slots')
+    if problems:
+        rep.violation('R5-state-has-storage', 'State::has_storage', 'State::has_storage: ' + sorted(set(problems))[0], g.where())
+    else:
+        rep.ok('R5-state-has-storage', 'State::has_storage', 'cached slots first, then storage knowledge, then the wrapped database')
+
+
+def c15_deep(v):
+    import c15
+    return c15.render_deep(v)
 
 
 def check_collision_guard(fx, cac, rep):
